@@ -50,6 +50,81 @@ spec fn types_of(a: ast::Aidl) -> Seq<ast::Type> {
     }
 }
 
+// ---- every part of the listing is inside the whole (what lets a callback rely on "this node is one of types_of(ast)") ----
+spec fn within(part: Seq<ast::Type>, whole: Seq<ast::Type>) -> bool {
+    forall |x: ast::Type| #[trigger] part.contains(x) ==> whole.contains(x)
+}
+proof fn lemma_within_concat(a: Seq<ast::Type>, b: Seq<ast::Type>)
+    ensures within(a, a + b), within(b, a + b)
+{
+    assert forall |x: ast::Type| #[trigger] a.contains(x) implies (a + b).contains(x) by {
+        let i = choose |i: int| 0 <= i < a.len() && a[i] == x;
+        assert((a + b)[i] == x);
+    }
+    assert forall |x: ast::Type| #[trigger] b.contains(x) implies (a + b).contains(x) by {
+        let i = choose |i: int| 0 <= i < b.len() && b[i] == x;
+        assert((a + b)[a.len() + i] == x);
+    }
+}
+proof fn lemma_flat_kids_within(t: ast::Type, k: int, n: int)
+    requires 0 <= k < n <= t.generic_types@.len()
+    ensures within(flat(t.generic_types@[k]), flat_kids(t, n))
+    decreases n
+{
+    lemma_within_concat(flat_kids(t, n - 1), flat(t.generic_types@[n - 1]));
+    if k < n - 1 { lemma_flat_kids_within(t, k, n - 1); }
+}
+// a node and the listings of its children are inside its own listing
+proof fn lemma_flat_within(t: ast::Type)
+    ensures flat(t).contains(t), forall |k: int| 0 <= k < t.generic_types@.len() ==> within(flat(#[trigger] t.generic_types@[k]), flat(t))
+{
+    let n = t.generic_types@.len() as int;
+    let kids = flat_kids(t, n);
+    lemma_within_concat(seq![t], kids);
+    lemma_within_concat(kids, seq![t]);
+    assert(seq![t][0] == t);
+    assert(seq![t].contains(t));
+    assert forall |k: int| 0 <= k < n implies within(flat(#[trigger] t.generic_types@[k]), flat(t)) by {
+        lemma_flat_kids_within(t, k, n);
+    }
+}
+proof fn lemma_arg_types_within(args: Seq<ast::Arg>, j: int, n: int)
+    requires 0 <= j < n <= args.len()
+    ensures within(flat(args[j].arg_type), arg_types(args, n))
+    decreases n
+{
+    lemma_within_concat(arg_types(args, n - 1), flat(args[n - 1].arg_type));
+    if j < n - 1 { lemma_arg_types_within(args, j, n - 1); }
+}
+proof fn lemma_iface_types_within(els: Seq<ast::InterfaceElement>, k: int, n: int)
+    requires 0 <= k < n <= els.len()
+    ensures within(iface_el_types(els[k]), iface_types(els, n))
+    decreases n
+{
+    lemma_within_concat(iface_types(els, n - 1), iface_el_types(els[n - 1]));
+    if k < n - 1 { lemma_iface_types_within(els, k, n - 1); }
+}
+proof fn lemma_parc_types_within(els: Seq<ast::ParcelableElement>, k: int, n: int)
+    requires 0 <= k < n <= els.len()
+    ensures within(parc_el_types(els[k]), parc_types(els, n))
+    decreases n
+{
+    lemma_within_concat(parc_types(els, n - 1), parc_el_types(els[n - 1]));
+    if k < n - 1 { lemma_parc_types_within(els, k, n - 1); }
+}
+// the types of a method: its return type's listing and each argument's are inside the element's listing
+proof fn lemma_method_types_within(m: ast::Method)
+    ensures
+        within(flat(m.return_type), iface_el_types(ast::InterfaceElement::Method(m))),
+        forall |j: int| 0 <= j < m.args@.len() ==> within(flat(#[trigger] m.args@[j].arg_type), iface_el_types(ast::InterfaceElement::Method(m))),
+{
+    let a = arg_types(m.args@, m.args@.len() as int);
+    lemma_within_concat(flat(m.return_type), a);
+    assert forall |j: int| 0 <= j < m.args@.len() implies within(flat(#[trigger] m.args@[j].arg_type), iface_el_types(ast::InterfaceElement::Method(m))) by {
+        lemma_arg_types_within(m.args@, j, m.args@.len() as int);
+    }
+}
+
 // all methods of a file, constants excluded (walk_methods contract)
 spec fn methods_upto(els: Seq<ast::InterfaceElement>, n: int) -> Seq<ast::Method>
     decreases n
@@ -61,6 +136,16 @@ spec fn methods_upto(els: Seq<ast::InterfaceElement>, n: int) -> Seq<ast::Method
             ast::InterfaceElement::Const(_) => methods_upto(els, n - 1),
         }
     }
+}
+// the listing up to k is a prefix of the listing up to n, and a method at position k is the next entry
+proof fn lemma_methods_upto_next(els: Seq<ast::InterfaceElement>, k: int, n: int)
+    requires 0 <= k < n <= els.len()
+    ensures
+        methods_upto(els, n).len() >= methods_upto(els, k + 1).len(),
+        forall |j: int| 0 <= j < methods_upto(els, k + 1).len() ==> methods_upto(els, n)[j] == methods_upto(els, k + 1)[j],
+    decreases n
+{
+    if n > k + 1 { lemma_methods_upto_next(els, k, n - 1); }
 }
 spec fn methods_of(a: ast::Aidl) -> Seq<ast::Method> {
     match a.item {
